@@ -196,11 +196,15 @@ impl DatabaseCheckpoint {
 		// Step 1: Flush all memtables to ensure consistency
 		self.flush_all_memtables()?;
 
-		// Step 2: Get current sequence number from the manifest
-		let sequence_number = {
-			let levels_guard = self.core.level_manifest.read()?;
-			levels_guard.get_last_sequence()
-		};
+		// Step 2: Get current sequence number from the manifest.
+		// The manifest stays read-locked until the tables, the manifest file and the
+		// value log have all been copied: flush and compaction need the write lock to
+		// install their result (and remove files only after that), so the three copies
+		// describe one and the same state. Releasing the lock between them let a
+		// compaction finish in between - the copied manifest then named a table that
+		// was never copied.
+		let levels_guard = self.core.level_manifest.read()?;
+		let sequence_number = levels_guard.get_last_sequence();
 
 		// Step 3: Create checkpoint subdirectories
 		let sstables_dir = checkpoint_path.join("sstables");
@@ -209,7 +213,7 @@ impl DatabaseCheckpoint {
 		fs::create_dir_all(&wal_dir).map_err(|e| Error::Io(Arc::new(e)))?;
 
 		// Step 4: Copy all SSTables
-		let (sstable_count, sstables_size) = self.copy_sstables(&sstables_dir)?;
+		let (sstable_count, sstables_size) = self.copy_sstables(&levels_guard, &sstables_dir)?;
 		#[cfg(feature = "verif")]
 		crate::verif::point("checkpoint.after_tables");
 
@@ -221,6 +225,7 @@ impl DatabaseCheckpoint {
 
 		// Step 7: Copy VLog directories if enabled
 		let vlog_size = self.copy_vlog_directories(checkpoint_path)?;
+		drop(levels_guard);
 
 		// Step 8: Create checkpoint metadata
 		let timestamp = SystemTime::now().duration_since(UNIX_EPOCH).unwrap().as_secs();
@@ -298,8 +303,11 @@ impl DatabaseCheckpoint {
 	}
 
 	/// Copies all SSTables to the checkpoint directory
-	fn copy_sstables(&self, dest_dir: &Path) -> Result<(usize, u64)> {
-		let levels_guard = self.core.level_manifest.read()?;
+	fn copy_sstables(
+		&self,
+		levels_guard: &crate::levels::LevelManifest,
+		dest_dir: &Path,
+	) -> Result<(usize, u64)> {
 		let mut total_size = 0u64;
 		let mut count = 0usize;
 
